@@ -61,7 +61,7 @@ DESIGN_REF = "extension/X02"
 JVM = ["-XX:+UseSerialGC", "-XX:-UseParallelGC"]
 # short runs: C1 only (halves the CPU a TLC start costs); the big thorough configs keep the full JIT
 JVM_SHORT = JVM + ["-XX:TieredStopAtLevel=1"]
-BIG = {"MC_FdReady_thorough.cfg", "MC_FdReady_live_thorough.cfg", "MC_FdAsync_thorough.cfg", "Gen_FdReady_thorough.cfg",
+BIG = {"MC_FdReady_thorough.cfg", "MC_FdReady_live_thorough.cfg", "MC_FdAsync_thorough.cfg", "MC_FdAsync_mid.cfg", "Gen_FdReady_thorough.cfg",
        "Gen_FdReady_same_thorough.cfg"}
 
 # (module, cfg, workers) exhaustive configs; liveness configs; controls (cfg -> what must be violated)
@@ -71,7 +71,7 @@ MC = {
     "thorough": [("FdReady", "MC_FdReady_thorough.cfg", 4), ("FdReady", "MC_FdReady.cfg", 1),
                  ("FdReady", "MC_FdReady_tokfill.cfg", 2), ("FdReady", "MC_FdReady_same.cfg", 1),
                  ("FdReady", "MC_FdReady_three.cfg", 1), ("FdAsync", "MC_FdAsync.cfg", 1),
-                 ("FdAsync", "MC_FdAsync_thorough.cfg", 2)],
+                 ("FdAsync", "MC_FdAsync_mid.cfg", 2), ("FdAsync", "MC_FdAsync_thorough.cfg", 2)],
 }
 # MC_FdReady.cfg and MC_FdAsync.cfg check safety AND liveness in one run (SPECIFICATION FairSpec, INVARIANTS and
 # PROPERTIES); the configs below are liveness only
@@ -81,7 +81,6 @@ LIVE = {
 }
 CONTROLS = {
     "quick": [("FdReady", "MC_FdReady_ctl_strict.cfg", "NoErr"), ("FdReady", "MC_FdReady_ctl_cross.cfg", "NoErr"),
-              ("FdReady", "MC_FdReady_ctl_nowake.cfg", "CoveredModuloKnown"),
               ("FdAsync", "MC_FdAsync_ctl_dup.cfg", "ExactlyOnce")],
     "thorough": [("FdReady", "MC_FdReady_ctl_strict.cfg", "NoErr"), ("FdReady", "MC_FdReady_ctl_cross.cfg", "NoErr"),
                  ("FdReady", "MC_FdReady_ctl_nowake.cfg", "CoveredModuloKnown"),
@@ -93,8 +92,7 @@ CONTROLS = {
 }
 GEN = {
     "quick": [("Gen_FdReady", "Gen_FdReady.cfg"), ("Gen_FdReady", "Gen_FdReady_same.cfg"),
-              ("Gen_FdReady", "Gen_FdReady_iour.cfg"), ("Gen_FdReady", "Gen_FdReady_poll.cfg"),
-              ("Gen_FdAsync", "Gen_FdAsync.cfg")],
+              ("Gen_FdReady", "Gen_FdReady_iour.cfg"), ("Gen_FdAsync", "Gen_FdAsync.cfg")],
     "thorough": [("Gen_FdReady", "Gen_FdReady_thorough.cfg"), ("Gen_FdReady", "Gen_FdReady_same_thorough.cfg"),
                  ("Gen_FdReady", "Gen_FdReady_iour.cfg"), ("Gen_FdReady", "Gen_FdReady_poll.cfg"),
                  ("Gen_FdAsync", "Gen_FdAsync_thorough.cfg")],
@@ -253,8 +251,9 @@ def _negative_control(path, tmp):
 
 
 def run(run, tier, replay):
-    for m in ("FdReady", "Gen_FdReady", "FdAsync", "Gen_FdAsync"):
-        vlib.sany(m)
+    with cf.ThreadPoolExecutor(max_workers=4) as p0:
+        for f in [p0.submit(vlib.sany, m) for m in ("FdReady", "Gen_FdReady", "FdAsync", "Gen_FdAsync")]:
+            f.result()
     tmp = vlib.scratch()
     try:
         if replay:
